@@ -37,7 +37,7 @@ def streams(ctx):
     q = ctx.quick()
     # corpus first: past disagreements (sessions replayed under forced-collection schedules)
     for path in corpus_sessions("C03"):
-        cases = gen_cases("gc", ["corpus", path, 1, 2, 3, 5, 7, 16], ctx.seed)
+        cases = gen_cases("gc", ["corpus", path] + ([5, 7] if q else [1, 2, 3, 5, 7, 16]), ctx.seed)
         md, sd = correspond(ctx, "corpus-sessions", cases, obs_nontrivial)
         settle(ctx, md, sd)
     # Heap API sequences: model of alloc/free/put/maybe_put/mark/sweep/grow vs the real Heap
